@@ -497,6 +497,19 @@ def fd_directional(F, x, v, h0=1e-3, accept=1e-8):
                 D.append((fp - fm) / (2 * s))
     except Exception as e:
         return FDResult(None, onp.inf, False, "fd_raised:" + type(e).__name__)
+    # continuity at the point itself: the central stencil never evaluates F(x); a function that jumps exactly at x
+    # (eigenvalues returned in another ORDER for every perturbed matrix, a branch taken only at the exact point)
+    # has a perfectly consistent stencil that belongs to another branch than F(x)
+    try:
+        with onp.errstate(all="ignore"):
+            f0 = onp.asarray(F(x), dtype=float)
+        if f0.shape != fp.shape:
+            return FDResult(None, onp.inf, False, "shape_changes")
+        mid = 0.5 * (fp + fm)  # from the smallest step
+        if onp.all(onp.isfinite(f0)) and f0.size and float(onp.max(onp.abs(mid - f0))) > 1e-3 * (1.0 + float(onp.max(onp.abs(f0)))):
+            return FDResult(None, onp.inf, False, "discontinuous_at_point")
+    except Exception as e:
+        return FDResult(None, onp.inf, False, "fd_raised:" + type(e).__name__)
     R1 = (4 * D[1] - D[0]) / 3
     R2 = (4 * D[2] - D[1]) / 3
     val = (16 * R2 - R1) / 15
